@@ -550,8 +550,15 @@ def run(ctx):
                 raise RuntimeError(f'harness forger disagrees with forge_micheline on {v} (C05 territory): fix the harness')
         if sorted(set(c['stored_keys'])) != sorted(set(c['keys'])):
             bad = next((v for k, (_, v) in zip(c['keys'], c['regs']) if k not in c['stored_keys']), None)
-            report('registration-key', f'register_global_constant({mich.to_line(bad)}) filed under {sorted(set(c["stored_keys"]) - set(c["keys"]))}, '
-                   f'expr hash is {expr_key(bad, tags)}', {'expression': bad, 'stored_keys': c['stored_keys'], 'expected': expr_key(bad, tags)})
+            extra = sorted(set(c['stored_keys']) - set(c['keys']))
+            if bad is None:
+                # nothing is missing, but the context holds constants THIS context never registered (a table shared between contexts)
+                report('registry-not-own', f'a context built by ExecutionContext() in which {len(c["keys"])} constants were registered holds {len(extra)} more, '
+                       f'e.g. {extra[:2]} — registered in other contexts of the process; an unknown hash would expand instead of failing',
+                       {'registered_here': c['keys'], 'foreign_keys': extra[:10]})
+            else:
+                report('registration-key', f'register_global_constant({mich.to_line(bad)}) filed under {sorted(set(c["stored_keys"]) - set(c["keys"]))}, '
+                       f'expr hash is {expr_key(bad, tags)}', {'expression': bad, 'stored_keys': c['stored_keys'], 'expected': expr_key(bad, tags)})
         if c['mutated']:
             report('input-mutated', 'resolve_global_constants changed its argument or a registered expression in place',
                    {'registry': [v for _, v in c['regs']], 'script': c['script']})
